@@ -15,7 +15,7 @@ from .common import Failure, Reporter
 class Chk:
     def __init__(self, pid, rule, on_rec, on_start=None, on_reset=None, on_end=None,
                  both_sides=True, do_gen=True, modes=None, doc_kw=None,
-                 weights=(14, 3, 3), quick=480, thorough=1500, exhaustive=True,
+                 weights=(14, 3, 3), quick=1200, thorough=1500, exhaustive=True,
                  assumptions=(), resets=True, gens=True):
         self.pid, self.rule = pid, rule
         self.on_rec, self.on_start, self.on_reset, self.on_end = on_rec, on_start, on_reset, on_end
@@ -25,6 +25,10 @@ class Chk:
         self.exhaustive = exhaustive
         self.assumptions = list(assumptions)
         self.resets, self.gens = resets, gens
+        # C04-C06 judge the real transitions (monotonicity, ledger, flags); they keep walking when the
+        # real state leaves the model's prediction (a defect owned by another property) - later
+        # consequences (access lowered -> value paid twice) are theirs
+        self.continue_on_divergence = pid in ("C04", "C05", "C06")
 
 
 GEN_RULE = ("cases = (scenario source S1 shipped YAML | S2 generate_scenario(params) | S3 random document via "
